@@ -543,6 +543,7 @@ func runC04(c *run.Ctx) {
 		}
 	}
 	hist := c04Histories(c, s, sdl, g, types)
+	hist += c04Kennel(c)
 	c.MinNontriv = (total + hist) / 3
 	c.Set("requests", total)
 }
@@ -761,3 +762,142 @@ func lastArgs(o *Outcome) interface{} {
 }
 
 var _ = rand.Int
+
+// ---------------------------------------------------------------- implementers with different arguments
+
+const c04KennelSDL = `interface KNamed { name: String }
+type KCat implements KNamed { name(limit: Int, tag: String = "t"): String lives: Int }
+type KDog implements KNamed { name: String barks(loud: Boolean!): Int }
+type KEel implements KNamed { name(limit: Int, deep: Boolean): String }
+union KAny = KCat | KDog | KEel
+type Query { pets: [KNamed] anys: [KAny] }`
+
+// kennelLog records what each resolver received.
+type kennelLog struct {
+	calls []string
+	bad   []string
+}
+
+// KCat, KDog and KEel are bound to the object types of the same name; they implement ggql.Resolver, so they SEE their arguments.
+type KCat struct{ log *kennelLog }
+type KDog struct{ log *kennelLog }
+type KEel struct{ log *kennelLog }
+
+func kennelResolve(log *kennelLog, typ string, declared map[string][]string, field *ggql.Field, args map[string]interface{}) (interface{}, error) {
+	log.calls = append(log.calls, fmt.Sprintf("%s.%s%v", typ, field.Name, args))
+	for a, v := range args {
+		ok := false
+		for _, d := range declared[field.Name] {
+			if d == a {
+				ok = true
+			}
+		}
+		if !ok {
+			log.bad = append(log.bad, fmt.Sprintf("%s.%s received the undeclared argument %s=%#v", typ, field.Name, a, v))
+		}
+		if a == "limit" && v != nil {
+			if _, isI := v.(int32); !isI {
+				log.bad = append(log.bad, fmt.Sprintf("%s.%s received limit=%#v, not an Int", typ, field.Name, v))
+			}
+		}
+	}
+	if typ == "KDog" && field.Name == "barks" && args["loud"] == nil {
+		log.bad = append(log.bad, "KDog.barks invoked without its required argument loud")
+	}
+	switch field.Name {
+	case "name":
+		return typ, nil
+	case "lives", "barks":
+		return 7, nil
+	}
+	return nil, nil
+}
+
+func (o *KCat) Resolve(field *ggql.Field, args map[string]interface{}) (interface{}, error) {
+	return kennelResolve(o.log, "KCat", map[string][]string{"name": {"limit", "tag"}}, field, args)
+}
+func (o *KDog) Resolve(field *ggql.Field, args map[string]interface{}) (interface{}, error) {
+	return kennelResolve(o.log, "KDog", map[string][]string{"barks": {"loud"}}, field, args)
+}
+func (o *KEel) Resolve(field *ggql.Field, args map[string]interface{}) (interface{}, error) {
+	return kennelResolve(o.log, "KEel", map[string][]string{"name": {"limit", "deep"}}, field, args)
+}
+
+type kennelQuery struct {
+	Pets []interface{}
+	Anys []interface{}
+}
+type kennelRoot struct{ Query *kennelQuery }
+
+// c04Kennel: ONE request field is resolved on objects of several object types whose field definitions declare different
+// arguments (heterogeneous interface / union lists, in every order, also on a parsed executable used again after the
+// data changed). Whatever the order, no resolver may receive an argument its own type does not declare, or be invoked
+// without one it requires; when that cannot be honoured there must be an error.
+func c04Kennel(c *run.Ctx) int {
+	n := c.N(150, 5000)
+	reqs := []string{
+		`{ pets { name(limit: 3) } }`, `{ pets { name(limit: 3, tag: "x") } }`, `{ pets { name } }`, `{ anys { ... on KNamed { name(limit: 2) } } }`,
+		`{ pets { ...F } } fragment F on KNamed { name(limit: 1) }`, `query($l: Int = 4) { pets { name(limit: $l) } anys { ... on KCat { name(limit: $l) } ... on KEel { name(limit: $l) } } }`,
+		`{ pets { name(tag: "only") } }`, `{ pets { name(deep: true, limit: 5) } }`, `{ anys { ... on KDog { barks } } }`, `query($b: Boolean) { anys { ... on KDog { barks(loud: $b) } } }`, `{ anys { ... on KDog { barks(loud: true) } ... on KCat { lives } } pets { name(limit: 9) } }`,
+	}
+	done := 0
+	for i := 0; i < n && !c.TooMany(); i++ {
+		r := c.Rand(800000 + i)
+		log := &kennelLog{}
+		mk := func() interface{} {
+			switch r.Intn(3) {
+			case 0:
+				return &KCat{log}
+			case 1:
+				return &KDog{log}
+			}
+			return &KEel{log}
+		}
+		q := &kennelQuery{}
+		for k, m := 0, 2+r.Intn(3); k < m; k++ {
+			q.Pets = append(q.Pets, mk())
+			q.Anys = append(q.Anys, mk())
+		}
+		root := ggql.NewRoot(&kennelRoot{Query: q})
+		if err := root.ParseString(c04KennelSDL); err != nil {
+			c.Violation("c04-kennel-schema", map[string]interface{}{"error": err.Error()})
+			return done
+		}
+		text := reqs[r.Intn(len(reqs))]
+		exe, perr := root.ParseExecutableString(text)
+		if perr != nil {
+			c.Violation("c04-kennel-parse", map[string]interface{}{"document": text, "error": perr.Error()})
+			continue
+		}
+		var trace []string
+		for step := 0; step < 2+r.Intn(2); step++ {
+			if step > 0 {
+				// the data changes between two uses of the parsed request: other types come first now
+				r.Shuffle(len(q.Pets), func(a, b int) { q.Pets[a], q.Pets[b] = q.Pets[b], q.Pets[a] })
+				r.Shuffle(len(q.Anys), func(a, b int) { q.Anys[a], q.Anys[b] = q.Anys[b], q.Anys[a] })
+			}
+			order := ""
+			for _, p := range q.Pets {
+				order += fmt.Sprintf("%T ", p)
+			}
+			trace = append(trace, strings.ReplaceAll(order, "*checks.", ""))
+			log.calls, log.bad = nil, nil
+			var res map[string]interface{}
+			var rerr error
+			pv, _ := run.Protect(func() { res, rerr = root.ResolveExecutable(exe, "", nil) })
+			done++
+			c.Eval(fmt.Sprintf("kennel|%s|%v", text, trace), true)
+			c.Bucket("form", "implementers-with-different-arguments")
+			c.Count("kennel_resolver_invocations_checked", len(log.calls))
+			if pv != nil || len(log.bad) > 0 {
+				c.Violation("c04-kennel", map[string]interface{}{"sdl": c04KennelSDL, "document": text, "pets_order_per_step": trace, "diag": fmt.Sprint(pv, log.bad),
+					"resolver_calls": log.calls, "data": fmt.Sprint(res["data"]), "errors": fmt.Sprint(rerr)})
+				break
+			}
+		}
+		if i == 0 {
+			c.Sample(map[string]interface{}{"document": text, "pets_order_per_step": trace, "resolver_calls": log.calls})
+		}
+	}
+	return done
+}
